@@ -83,6 +83,11 @@ for fam in FAMILIES:
         bounded="Geometric::new squaring loop unwound 70 times (unwinding assertion on)" if fam == "geometric" else None,
         default_tag="C12.safety")
 VALID_DIST = ["k_valid_dist_" + f for f in FAMILIES]
+STATE_PARTS = ["k_valid_state_a_only", "k_valid_state_b_only", "k_valid_state_a_with_b", "k_valid_state_b_with_a",
+               "k_valid_state_action"]
+for h in STATE_PARTS:
+    KANI_HARNESSES[h] = H("maybenot", SP, h, "State::validate (action / counter distributions)", ST,
+                          bounded="state without transitions; the symbolic distribution is a Uniform", default_tag="C12.safety")
 
 TB_COMMON = [
     "time-trait axioms (Duration::ax_duration, Instant::t): every implementor of maybenot::time is assumed to satisfy them",
@@ -95,7 +100,7 @@ TB_COMMON = [
 ]
 
 PROPS = {
-    "C01": {"verus": ["vfw", "vleaf"], "kani": ["k_new_fracs"], "untagged": True, "title": "Framework is total",
+    "C01": {"verus": ["vfw", "vleaf"], "kani": ["k_new_fracs"] + STATE_PARTS, "untagged": True, "title": "Framework is total",
             "explanation": "Verus proves, generically in the machine container M, the RNG R and the clock T, that trigger_events / process_event / transition / update_counter / schedule_action / decrement_limit / below_action_limits and the bodies of below_limit_padding / below_limit_blocking never index out of bounds, never overflow an integer, never unwrap None, that recursion and all loops terminate (decreases on the per-machine CounterZero guards), that an event naming a non-existent machine touches no machine [C01.ids] and that one machine step makes at most 1 + (guards consumed) <= 3 deliveries [C01.steps]. Not machine-checked: Framework::new's machine loop (iter_mut().zip()), the summation of the per-step work bound over a batch. Explicit hypotheses: packet counters < 2^64; dur_headroom (F5)."},
     "C02": {"verus": ["vfw"], "kani": ["k_pad"], "title": "Padding budgets",
             "explanation": "K-PAD: Kani function contract on the real below_limit_padding, all u64 counters, all fractions in [0,1], bit-precise IEEE-754: true => state limit > 0 and (budget left or both fractions below, zero packets counting as below). V-FW: below_action_limits / transition carry the predicate: a slot that changes to SendPadding satisfies pad_budget_ok on the accounting of that moment [C02.prov]; machine steps never write the accounting [C02.acct]; process_event counts NormalSent / PaddingSent (any id) before the machines run. The composition over a whole single-event call (slots cleared at call start + the above) is argued in DESIGN.md, not machine-checked."},
@@ -116,11 +121,11 @@ PROPS = {
             "explanation": "Signaller abstraction {none, one(x), many}: every machine step changes it only by sig_join written from the statement (a machine signalling again stays the only signaller) [C09.join]. The delivery round of trigger_events (each live machine other than the lone signaller exactly once) is NOT machine-checked; see DESIGN.md."},
     "C10": {"verus": ["vfw"], "kani": [], "title": "Non-interference",
             "explanation": "Write frame: a step of machine i leaves every other machine's runtime and slot untouched [C10.frame], writes no framework-level state other than rng, signal_pending (sanctioned) [C10.shared], and delivers events only to machine i [C10.local]. The relational solo-vs-combined lemma is not attempted."},
-    "C12": {"verus": [], "kani": ["k_valid_machine", "k_new_fracs"] + VALID_DIST,
+    "C12": {"verus": [], "kani": ["k_valid_machine", "k_new_fracs"] + VALID_DIST + STATE_PARTS,
             "title": "Validation soundness",
             "explanation": "Kani on the real validate functions: accepted fractions are real numbers in [0,1] [C12.fracs]; accepted distributions have parameters the sampler's constructor accepts plus the explicit speed bounds, for 7 of the 11 families (uniform, normal, skewnormal, lognormal, binomial, pareto, weibull) [C12.dist]; NOT decided: State::validate's transition checks (the harnesses k_valid_state_* exist but CBMC does not finish on the real HashSet code within 15 minutes), and the poisson / geometric / gamma / beta constructors (loops over symbolic floats, inline asm); Framework::new accepts exactly fractions in [0,1] [C12.new]. from_str / Machine::new calling validate is by inspection (two lines), not machine-checked."},
     "C13": {"verus": [], "kani": ["k_dist_sample", "k_clamp_timeout", "k_clamp_duration", "k_clamp_limit",
-                                  "k_counter_value"], "title": "Sampling in range",
+                                  "k_counter_value"] + VALID_DIST, "title": "Sampling in range",
             "explanation": "Dist::sample with the underlying rand_distr sampler over-approximated by 'returns any f64': the result is not NaN, >= 0, <= max when max > 0, and finite, for all 11 families and all start/max including NaN and infinities; the consumers' conversions never panic and clamp to one day. NOT decided: that the rand_distr samplers return promptly (probabilistic termination) - an explicit assumption."},
     "C20": {"verus": [], "kani": ["k_ffi_convert_action", "k_ffi_convert_event", "k_ffi_null_args"], "title": "C API",
             "explanation": "convert_action is field-exact for every TriggerAction value (kind, machine, flags, timer, seconds, nanoseconds) and convert_event for all 10 event types and any id (loop-free, full domain); null `this`, null `out` are reported through NullPointer / 0 without dereference. The zip with the output slice (count <= num_machines) and start/stop ownership are std semantics, assumed."},
